@@ -7,12 +7,16 @@ from .common import setup, run_kernels
 from .c02 import field_contracts
 
 
-def mont_battery(seed):
+def mont_battery(seed, extra=()):
+    """extra: (raw point string, affine point) pairs - representations derived from the paths of the real code"""
     import random
     from sym import native
     rng = random.Random(seed)
     pts = ptreplay.bank(rng, 14)
     ops, meta = [], []
+    for raw, q in extra:
+        ops.append({"op": "P.BytesMontgomery", "args": ["p"], "init": {"p": raw}})
+        meta.append(q)
     for p in pts:
         for q in (p, ref.ed_neg(p)):
             ops.append({"op": "P.BytesMontgomery", "args": ["p"], "init": {"p": ptreplay.mk_point(q, rng)}})
@@ -105,7 +109,7 @@ def run(chk):
     l1 = L1m.L1(base, chk)
     items += [("BytesMontgomery", lambda: k_mont(l1))]
     run_kernels(chk, items)
-    L1m.settle(chk, [o for o in chk.obs if o.name.startswith("Point.BytesMontgomery")], lambda: mont_battery(chk.seed), "Point.BytesMontgomery")
+    L1m.settle(chk, [o for o in chk.obs if o.name.startswith("Point.BytesMontgomery")], lambda: mont_battery(chk.seed, L1m.witness_points(chk, base, "Point.BytesMontgomery")), "Point.BytesMontgomery")
     chk.samples = [o.j() for o in chk.obs if o.name.startswith("Point.BytesMontgomery")][:5]
 
 
